@@ -1,10 +1,1331 @@
-#![allow(dead_code)]
+#![allow(dead_code, non_camel_case_types, clippy::all)]
+//! C12 / C13, x86-64 back ends of ppv-lite86: every trait method of every vector type of the
+//! machines SSE2, SSSE3, SSE41, AVX, AVX2, called through functions generic over `M: Machine`
+//! (plus where-bounds for the methods the concrete x86 types implement beyond the Machine bounds).
+//!
+//! A vector value is written as its byte image (words in lane order, each word little-endian).
+//! C12 operands are built with `Machine::unpack` from storage and read back with `Into<storage>`;
+//! C13 exercises `from_lanes/to_lanes`, storage views, insert/extract, byte I/O, transpose4, ....
+//!
+//! sub-commands: `c12`, `c13` (case kind pxcase), `intr` (raw intrinsics, case kind picase), `repro`.
 #[path = "../util.rs"]
 mod util;
+use util::*;
 
-use ppv_lite86::x86_64::{AVX2, SSE2, SSE41, SSSE3};
+use core::arch::x86_64::*;
+use ppv_lite86::x86_64::{AVX, AVX2, SSE2, SSE41, SSSE3};
 use ppv_lite86::*;
-use std::panic::catch_unwind;
+use std::collections::HashSet;
+use std::panic::{catch_unwind, AssertUnwindSafe};
+
+// ---------------------------------------------------------------------------
+// cases
+// ---------------------------------------------------------------------------
+struct Case {
+    m: u32,
+    ty: u32,
+    op: u32,
+    k: u32,
+    a: Vec<u8>,
+    b: Vec<u8>,
+    x: Vec<u8>,
+    ok: bool,
+    r: Vec<u8>,
+}
+const MACH: [&str; 5] = ["SSE2", "SSSE3", "SSE41", "AVX", "AVX2"];
+
+impl Case {
+    fn coq(&self) -> String {
+        format!(
+            "PX {} {} {} {} {} {} {} {} {} {} {} {} {}",
+            self.m,
+            self.ty,
+            self.op,
+            self.k,
+            self.a.len(),
+            ilit(&self.a),
+            self.b.len(),
+            ilit(&self.b),
+            self.x.len(),
+            ilit(&self.x),
+            if self.ok { "true" } else { "false" },
+            self.r.len(),
+            ilit(&self.r)
+        )
+    }
+    fn json(&self) -> String {
+        format!(
+            "{{\"machine\":{},\"type\":{},\"op\":{},\"k\":{},\"a\":{},\"b\":{},\"x\":{},\"outcome\":{},\"result\":{}}}",
+            jstr(MACH[self.m as usize]),
+            jstr(ty_name(self.ty)),
+            jstr(&op_name(self.op, self.k)),
+            self.k,
+            jstr(&hex(&self.a)),
+            jstr(&hex(&self.b)),
+            jstr(&hex(&self.x)),
+            jstr(if self.ok { "ok" } else { "panic" }),
+            jstr(&hex(&self.r))
+        )
+    }
+}
+
+fn ty_name(t: u32) -> &'static str {
+    [
+        "u32x4", "u64x2", "u128x1", "u32x4x2", "u64x2x2", "u64x4", "u128x2", "u32x4x4", "u64x2x4", "u128x4",
+        "vec128_storage", "vec256_storage", "vec512_storage",
+    ][t as usize]
+}
+fn op_name(op: u32, k: u32) -> String {
+    match op {
+        1 => "add".into(),
+        2 => "add_assign".into(),
+        3 => "bitxor".into(),
+        4 => "bitand".into(),
+        5 => "bitor".into(),
+        6 => "not".into(),
+        7 => "andnot".into(),
+        8 => "bitxor_assign".into(),
+        9 => "bitand_assign".into(),
+        10 => "bitor_assign".into(),
+        20 => format!("rotate_each_word_right{}", k),
+        21 => format!("swap{}", k),
+        22 => "bswap".into(),
+        23 => format!("shuffle{}", k),
+        24 => format!("shuffle_lane_words{}", k),
+        30 => "from_lanes then to_lanes".into(),
+        31 => format!("extract({})", k),
+        32 => format!("insert(x,{})", k),
+        33 => format!("unpack(storage from {}-byte words), to_lanes", (k >> 8) & 255),
+        34 => format!("from_lanes, into storage, read as {}-byte words{}", k & 255, if k >> 16 != 0 { " (whole array)" } else { "" }),
+        35 => format!("storage from {}-byte words read as {}-byte words{}", (k >> 8) & 255, k & 255, if k >> 16 != 0 { " (whole array)" } else { "" }),
+        40 => "read_le".into(),
+        41 => "read_be".into(),
+        42 => format!("write_le(out len {})", k),
+        43 => format!("write_be(out len {})", k),
+        44 => "from_lanes, into storage".into(),
+        45 => "unpack storage, to_lanes".into(),
+        46 => format!("into {}", ty_name(k)),
+        50 => "transpose4".into(),
+        51 => "to_scalars".into(),
+        _ => format!("op{}", op),
+    }
+}
+
+struct Cx {
+    m: u32,
+    cases: Vec<Case>,
+    distinct: HashSet<(u32, u32, u32, u32, Vec<u8>, Vec<u8>, Vec<u8>)>,
+    per_type: [usize; 13],
+    per_mach: [usize; 5],
+    panics: usize,
+}
+impl Cx {
+    fn new() -> Self {
+        Cx { m: 0, cases: Vec::new(), distinct: HashSet::new(), per_type: [0; 13], per_mach: [0; 5], panics: 0 }
+    }
+    fn push(&mut self, ty: u32, op: u32, k: u32, a: &[u8], b: &[u8], x: &[u8], r: Option<Vec<u8>>) {
+        let nontrivial = a.iter().chain(b.iter()).chain(x.iter()).any(|&v| v != 0);
+        if nontrivial {
+            self.distinct.insert((self.m, ty, op, k, a.to_vec(), b.to_vec(), x.to_vec()));
+        }
+        self.per_type[ty as usize] += 1;
+        self.per_mach[self.m as usize] += 1;
+        if r.is_none() {
+            self.panics += 1;
+        }
+        self.cases.push(Case { m: self.m, ty, op, k, a: a.to_vec(), b: b.to_vec(), x: x.to_vec(), ok: r.is_some(), r: r.unwrap_or_default() });
+    }
+}
+
+/// byte string as a Coq list of primitive-integer literals, 7 bytes (little-endian) each
+fn ilit(b: &[u8]) -> String {
+    let mut s = String::from("[");
+    for (i, c) in b.chunks(7).enumerate() {
+        let mut t = [0u8; 8];
+        t[..c.len()].copy_from_slice(c);
+        if i > 0 {
+            s.push(';');
+        }
+        s.push_str(&u64::from_le_bytes(t).to_string());
+    }
+    s.push_str("]%uint63");
+    s
+}
+
+fn guard<F: FnOnce() -> Vec<u8>>(f: F) -> Option<Vec<u8>> {
+    catch_unwind(AssertUnwindSafe(f)).ok()
+}
+
+// ---------------------------------------------------------------------------
+// byte <-> word helpers
+// ---------------------------------------------------------------------------
+fn w32(b: &[u8]) -> u32 {
+    u32::from_le_bytes([b[0], b[1], b[2], b[3]])
+}
+fn w64(b: &[u8]) -> u64 {
+    let mut t = [0u8; 8];
+    t.copy_from_slice(&b[..8]);
+    u64::from_le_bytes(t)
+}
+fn w128(b: &[u8]) -> u128 {
+    let mut t = [0u8; 16];
+    t.copy_from_slice(&b[..16]);
+    u128::from_le_bytes(t)
+}
+fn d4(b: &[u8]) -> [u32; 4] {
+    [w32(&b[0..]), w32(&b[4..]), w32(&b[8..]), w32(&b[12..])]
+}
+fn q2(b: &[u8]) -> [u64; 2] {
+    [w64(&b[0..]), w64(&b[8..])]
+}
+fn q4(b: &[u8]) -> [u64; 4] {
+    [w64(&b[0..]), w64(&b[8..]), w64(&b[16..]), w64(&b[24..])]
+}
+fn bytes32(ws: &[u32]) -> Vec<u8> {
+    ws.iter().flat_map(|w| w.to_le_bytes()).collect()
+}
+fn bytes64(ws: &[u64]) -> Vec<u8> {
+    ws.iter().flat_map(|w| w.to_le_bytes()).collect()
+}
+fn bytes128(ws: &[u128]) -> Vec<u8> {
+    ws.iter().flat_map(|w| w.to_le_bytes()).collect()
+}
+
+// storage from bytes (through the [u32;4] view, the only array constructor of vec128_storage on
+// x86) and back (through the [u32;4] view)
+fn s128(b: &[u8]) -> vec128_storage {
+    d4(b).into()
+}
+fn s256(b: &[u8]) -> vec256_storage {
+    vec256_storage::new128([s128(&b[0..16]), s128(&b[16..32])])
+}
+fn s512(b: &[u8]) -> vec512_storage {
+    vec512_storage::new128([s128(&b[0..16]), s128(&b[16..32]), s128(&b[32..48]), s128(&b[48..64])])
+}
+fn r128(s: vec128_storage) -> Vec<u8> {
+    let d: [u32; 4] = s.into();
+    bytes32(&d)
+}
+fn r256(s: vec256_storage) -> Vec<u8> {
+    let p = s.split128();
+    [r128(p[0]), r128(p[1])].concat()
+}
+fn r512(s: vec512_storage) -> Vec<u8> {
+    s.split128().iter().flat_map(|x| r128(*x)).collect()
+}
+/// read side of the storage views: `t` = word size in bytes, `whole` = whole-width array conversion
+fn r128v(s: vec128_storage, t: u32) -> Vec<u8> {
+    match t {
+        4 => bytes32(&<[u32; 4]>::from(s)),
+        8 => bytes64(&<[u64; 2]>::from(s)),
+        _ => bytes128(&<[u128; 1]>::from(s)),
+    }
+}
+fn r256v(s: vec256_storage, t: u32, whole: bool) -> Vec<u8> {
+    if whole {
+        match t {
+            4 => bytes32(&<[u32; 8]>::from(s)),
+            8 => bytes64(&<[u64; 4]>::from(s)),
+            _ => bytes128(&<[u128; 2]>::from(s)),
+        }
+    } else {
+        s.split128().iter().flat_map(|x| r128v(*x, t)).collect()
+    }
+}
+fn r512v(s: vec512_storage, t: u32, whole: bool) -> Vec<u8> {
+    if whole {
+        match t {
+            4 => bytes32(&<[u32; 16]>::from(s)),
+            8 => bytes64(&<[u64; 8]>::from(s)),
+            _ => bytes128(&<[u128; 4]>::from(s)),
+        }
+    } else {
+        s.split128().iter().flat_map(|x| r128v(*x, t)).collect()
+    }
+}
+
+// build with unpack / read with Into<storage>
+macro_rules! mkrd_store {
+    ($mk:ident, $rd:ident, $T:ident, $S:ty, $sf:ident, $rf:ident) => {
+        fn $mk<M: Machine>(m: M, b: &[u8]) -> M::$T {
+            m.unpack::<$S, M::$T>($sf(b))
+        }
+        fn $rd<M: Machine>(v: M::$T) -> Vec<u8> {
+            let s: $S = v.into();
+            $rf(s)
+        }
+    };
+}
+mkrd_store!(mk_u32x4, rd_u32x4, u32x4, vec128_storage, s128, r128);
+mkrd_store!(mk_u64x2, rd_u64x2, u64x2, vec128_storage, s128, r128);
+mkrd_store!(mk_u128x1, rd_u128x1, u128x1, vec128_storage, s128, r128);
+mkrd_store!(mk_u32x4x2, rd_u32x4x2, u32x4x2, vec256_storage, s256, r256);
+mkrd_store!(mk_u64x2x2, rd_u64x2x2, u64x2x2, vec256_storage, s256, r256);
+mkrd_store!(mk_u64x4, rd_u64x4, u64x4, vec256_storage, s256, r256);
+mkrd_store!(mk_u128x2, rd_u128x2, u128x2, vec256_storage, s256, r256);
+mkrd_store!(mk_u32x4x4, rd_u32x4x4, u32x4x4, vec512_storage, s512, r512);
+mkrd_store!(mk_u64x2x4, rd_u64x2x4, u64x2x4, vec512_storage, s512, r512);
+mkrd_store!(mk_u128x4, rd_u128x4, u128x4, vec512_storage, s512, r512);
+
+// build with from_lanes (Machine::vec) / read with to_lanes
+fn lk_u32x4<M: Machine>(m: M, b: &[u8]) -> M::u32x4 {
+    m.vec(d4(b))
+}
+fn lr_u32x4<M: Machine>(v: M::u32x4) -> Vec<u8> {
+    let l: [u32; 4] = v.to_lanes();
+    bytes32(&l)
+}
+fn lk_u64x2<M: Machine>(m: M, b: &[u8]) -> M::u64x2 {
+    m.vec(q2(b))
+}
+fn lr_u64x2<M: Machine>(v: M::u64x2) -> Vec<u8> {
+    let l: [u64; 2] = v.to_lanes();
+    bytes64(&l)
+}
+fn lk_u128x1<M: Machine>(m: M, b: &[u8]) -> M::u128x1 {
+    m.vec([w128(b)])
+}
+fn lr_u128x1<M: Machine>(v: M::u128x1) -> Vec<u8> {
+    let l: [u128; 1] = v.to_lanes();
+    bytes128(&l)
+}
+fn lk_u64x4<M: Machine>(m: M, b: &[u8]) -> M::u64x4 {
+    m.vec(q4(b))
+}
+fn lr_u64x4<M: Machine>(v: M::u64x4) -> Vec<u8> {
+    let l: [u64; 4] = v.to_lanes();
+    bytes64(&l)
+}
+macro_rules! mkrd_lanes2 {
+    ($mk:ident, $rd:ident, $T:ident, $E:ident, $mke:ident, $rde:ident) => {
+        fn $mk<M: Machine>(m: M, b: &[u8]) -> M::$T {
+            m.vec([$mke(m, &b[0..16]), $mke(m, &b[16..32])])
+        }
+        fn $rd<M: Machine>(v: M::$T) -> Vec<u8> {
+            let l: [M::$E; 2] = v.to_lanes();
+            [$rde::<M>(l[0]), $rde::<M>(l[1])].concat()
+        }
+    };
+}
+macro_rules! mkrd_lanes4 {
+    ($mk:ident, $rd:ident, $T:ident, $E:ident, $mke:ident, $rde:ident) => {
+        fn $mk<M: Machine>(m: M, b: &[u8]) -> M::$T {
+            m.vec([$mke(m, &b[0..16]), $mke(m, &b[16..32]), $mke(m, &b[32..48]), $mke(m, &b[48..64])])
+        }
+        fn $rd<M: Machine>(v: M::$T) -> Vec<u8> {
+            let l: [M::$E; 4] = v.to_lanes();
+            l.iter().flat_map(|x| $rde::<M>(*x)).collect()
+        }
+    };
+}
+mkrd_lanes2!(lk_u32x4x2, lr_u32x4x2, u32x4x2, u32x4, lk_u32x4, lr_u32x4);
+mkrd_lanes2!(lk_u64x2x2, lr_u64x2x2, u64x2x2, u64x2, lk_u64x2, lr_u64x2);
+mkrd_lanes2!(lk_u128x2, lr_u128x2, u128x2, u128x1, lk_u128x1, lr_u128x1);
+mkrd_lanes4!(lk_u32x4x4, lr_u32x4x4, u32x4x4, u32x4, lk_u32x4, lr_u32x4);
+mkrd_lanes4!(lk_u64x2x4, lr_u64x2x4, u64x2x4, u64x2, lk_u64x2, lr_u64x2);
+mkrd_lanes4!(lk_u128x4, lr_u128x4, u128x4, u128x1, lk_u128x1, lr_u128x1);
+
+// ---------------------------------------------------------------------------
+// operand streams
+// ---------------------------------------------------------------------------
+struct Gen {
+    rng: Rng,
+    quick: bool,
+    nrand: usize,
+    /// quick tier only: thinned walking-one stream (every 13th bit) for the AVX machine, whose
+    /// types are the SSE41 types, and for the `*_assign` forms, which call the by-value operators
+    light: bool,
+}
+impl Gen {
+    /// walking-one positions: every bit (exhaustive basis) for 128-bit types and in the thorough
+    /// tier; every 7th bit (7 is coprime to 8: all bit-in-byte positions) otherwise
+    fn walk_bits(&self, n: usize) -> Vec<usize> {
+        let stride = if self.quick && self.light { 13 } else if self.quick && n > 16 { 7 } else { 1 };
+        (0..8 * n).filter(|j| j % stride == 0).collect()
+    }
+    fn unary(&mut self, n: usize) -> Vec<Vec<u8>> {
+        let mut v: Vec<Vec<u8>> = Vec::new();
+        v.push(vec![0u8; n]);
+        v.push(vec![0xffu8; n]);
+        v.push((0..n).map(|i| i as u8).collect());
+        v.push((0..n).map(|i| 0x80 | (i as u8)).collect());
+        v.push((0..n).map(|i| if i % 4 == 3 { 0x7f } else { 0xff }).collect());
+        v.push((0..n).map(|i| if i % 8 == 7 { 0x80 } else { 0x00 }).collect());
+        for _ in 0..self.nrand {
+            let mut b = vec![0u8; n];
+            self.rng.fill(&mut b);
+            v.push(b);
+        }
+        for j in self.walk_bits(n) {
+            let mut b = vec![0u8; n];
+            b[j / 8] = 1 << (j % 8);
+            v.push(b);
+        }
+        v
+    }
+    fn binary(&mut self, n: usize) -> Vec<(Vec<u8>, Vec<u8>)> {
+        let mut v: Vec<(Vec<u8>, Vec<u8>)> = Vec::new();
+        let zero = vec![0u8; n];
+        let ones = vec![0xffu8; n];
+        let idx: Vec<u8> = (0..n).map(|i| i as u8).collect();
+        let mut r1 = vec![0u8; n];
+        self.rng.fill(&mut r1);
+        let one32: Vec<u8> = (0..n).map(|i| if i % 4 == 0 { 1 } else { 0 }).collect();
+        let one64: Vec<u8> = (0..n).map(|i| if i % 8 == 0 { 1 } else { 0 }).collect();
+        let one128: Vec<u8> = (0..n).map(|i| if i % 16 == 0 { 1 } else { 0 }).collect();
+        let hi32: Vec<u8> = (0..n).map(|i| if i % 4 == 3 { 0x80 } else { 0 }).collect();
+        for p in [
+            (&zero, &zero),
+            (&ones, &ones),
+            (&ones, &zero),
+            (&zero, &ones),
+            (&ones, &one32),
+            (&ones, &one64),
+            (&ones, &one128),
+            (&one128, &ones),
+            (&hi32, &hi32),
+            (&idx, &ones),
+            (&idx, &r1),
+            (&r1, &idx),
+            (&r1, &r1),
+        ] {
+            v.push((p.0.clone(), p.1.clone()));
+        }
+        // carry chains: low part all ones up to bit j, plus one
+        for j in [7usize, 8, 15, 16, 31, 32, 33, 63, 64, 65, 95, 96, 127] {
+            let mut a = vec![0u8; n];
+            for c in a.chunks_mut(16) {
+                for t in 0..j {
+                    c[t / 8] |= 1 << (t % 8);
+                }
+            }
+            v.push((a.clone(), one128.clone()));
+            v.push((one128.clone(), a));
+        }
+        for _ in 0..self.nrand {
+            let mut a = vec![0u8; n];
+            let mut b = vec![0u8; n];
+            self.rng.fill(&mut a);
+            self.rng.fill(&mut b);
+            v.push((a, b));
+        }
+        for j in self.walk_bits(n) {
+            let mut b = vec![0u8; n];
+            b[j / 8] = 1 << (j % 8);
+            v.push((b.clone(), r1.clone()));
+            v.push((ones.clone(), b));
+        }
+        v
+    }
+    fn few(&mut self, n: usize) -> Vec<Vec<u8>> {
+        let mut v: Vec<Vec<u8>> = Vec::new();
+        v.push((0..n).map(|i| i as u8).collect());
+        v.push(vec![0xffu8; n]);
+        v.push(vec![0u8; n]);
+        let c = if self.quick { 2 } else { 12 };
+        for _ in 0..c {
+            let mut b = vec![0u8; n];
+            self.rng.fill(&mut b);
+            v.push(b);
+        }
+        v
+    }
+}
+
+// ---------------------------------------------------------------------------
+// operation groups
+// ---------------------------------------------------------------------------
+macro_rules! un_op {
+    ($cx:expr, $g:expr, $ty:expr, $n:expr, $mk:expr, $rd:expr, $op:expr, $k:expr, $f:expr) => {{
+        for a in $g.unary($n) {
+            let r = guard(|| $rd($f($mk(&a))));
+            $cx.push($ty, $op, $k, &a, &[], &[], r);
+        }
+    }};
+}
+macro_rules! bin_op {
+    ($cx:expr, $g:expr, $ty:expr, $n:expr, $mk:expr, $rd:expr, $op:expr, $f:expr) => {{
+        for (a, b) in $g.binary($n) {
+            let r = guard(|| $rd($f($mk(&a), $mk(&b))));
+            $cx.push($ty, $op, 0, &a, &b, &[], r);
+        }
+    }};
+}
+type Mk<'a, V> = &'a dyn Fn(&[u8]) -> V;
+type Rd<'a, V> = &'a dyn Fn(V) -> Vec<u8>;
+
+fn g_bitops0<V: BitOps0>(cx: &mut Cx, g: &mut Gen, ty: u32, n: usize, mk: Mk<V>, rd: Rd<V>) {
+    bin_op!(cx, g, ty, n, mk, rd, 3, |a: V, b: V| a ^ b);
+    bin_op!(cx, g, ty, n, mk, rd, 4, |a: V, b: V| a & b);
+    bin_op!(cx, g, ty, n, mk, rd, 5, |a: V, b: V| a | b);
+    un_op!(cx, g, ty, n, mk, rd, 6, 0, |a: V| !a);
+    bin_op!(cx, g, ty, n, mk, rd, 7, |a: V, b: V| a.andnot(b));
+    let keep = g.light;
+    g.light = true;
+    bin_op!(cx, g, ty, n, mk, rd, 8, |a: V, b: V| {
+        let mut a = a;
+        a ^= b;
+        a
+    });
+    g.light = keep;
+}
+fn g_assign_extra<V: Copy + core::ops::BitAndAssign + core::ops::BitOrAssign>(cx: &mut Cx, g: &mut Gen, ty: u32, n: usize, mk: Mk<V>, rd: Rd<V>) {
+    let keep = g.light;
+    g.light = true;
+    bin_op!(cx, g, ty, n, mk, rd, 9, |a: V, b: V| {
+        let mut a = a;
+        a &= b;
+        a
+    });
+    bin_op!(cx, g, ty, n, mk, rd, 10, |a: V, b: V| {
+        let mut a = a;
+        a |= b;
+        a
+    });
+    g.light = keep;
+}
+fn g_rot32<V: RotateEachWord32 + Copy>(cx: &mut Cx, g: &mut Gen, ty: u32, n: usize, mk: Mk<V>, rd: Rd<V>) {
+    un_op!(cx, g, ty, n, mk, rd, 20, 7, |a: V| a.rotate_each_word_right7());
+    un_op!(cx, g, ty, n, mk, rd, 20, 8, |a: V| a.rotate_each_word_right8());
+    un_op!(cx, g, ty, n, mk, rd, 20, 11, |a: V| a.rotate_each_word_right11());
+    un_op!(cx, g, ty, n, mk, rd, 20, 12, |a: V| a.rotate_each_word_right12());
+    un_op!(cx, g, ty, n, mk, rd, 20, 16, |a: V| a.rotate_each_word_right16());
+    un_op!(cx, g, ty, n, mk, rd, 20, 20, |a: V| a.rotate_each_word_right20());
+    un_op!(cx, g, ty, n, mk, rd, 20, 24, |a: V| a.rotate_each_word_right24());
+    un_op!(cx, g, ty, n, mk, rd, 20, 25, |a: V| a.rotate_each_word_right25());
+}
+fn g_rot64<V: RotateEachWord64 + Copy>(cx: &mut Cx, g: &mut Gen, ty: u32, n: usize, mk: Mk<V>, rd: Rd<V>) {
+    un_op!(cx, g, ty, n, mk, rd, 20, 32, |a: V| a.rotate_each_word_right32());
+}
+fn g_arith<V: ArithOps>(cx: &mut Cx, g: &mut Gen, ty: u32, n: usize, mk: Mk<V>, rd: Rd<V>) {
+    bin_op!(cx, g, ty, n, mk, rd, 1, |a: V, b: V| a + b);
+    let keep = g.light;
+    g.light = true;
+    bin_op!(cx, g, ty, n, mk, rd, 2, |a: V, b: V| {
+        let mut a = a;
+        a += b;
+        a
+    });
+    g.light = keep;
+    un_op!(cx, g, ty, n, mk, rd, 22, 0, |a: V| a.bswap());
+}
+fn g_bswap<V: BSwap + Copy>(cx: &mut Cx, g: &mut Gen, ty: u32, n: usize, mk: Mk<V>, rd: Rd<V>) {
+    un_op!(cx, g, ty, n, mk, rd, 22, 0, |a: V| a.bswap());
+}
+fn g_swap64<V: Swap64 + Copy>(cx: &mut Cx, g: &mut Gen, ty: u32, n: usize, mk: Mk<V>, rd: Rd<V>) {
+    un_op!(cx, g, ty, n, mk, rd, 21, 1, |a: V| a.swap1());
+    un_op!(cx, g, ty, n, mk, rd, 21, 2, |a: V| a.swap2());
+    un_op!(cx, g, ty, n, mk, rd, 21, 4, |a: V| a.swap4());
+    un_op!(cx, g, ty, n, mk, rd, 21, 8, |a: V| a.swap8());
+    un_op!(cx, g, ty, n, mk, rd, 21, 16, |a: V| a.swap16());
+    un_op!(cx, g, ty, n, mk, rd, 21, 32, |a: V| a.swap32());
+    un_op!(cx, g, ty, n, mk, rd, 21, 64, |a: V| a.swap64());
+}
+fn g_words4<V: Words4 + Copy>(cx: &mut Cx, g: &mut Gen, ty: u32, n: usize, mk: Mk<V>, rd: Rd<V>) {
+    un_op!(cx, g, ty, n, mk, rd, 23, 1230, |a: V| a.shuffle1230());
+    un_op!(cx, g, ty, n, mk, rd, 23, 2301, |a: V| a.shuffle2301());
+    un_op!(cx, g, ty, n, mk, rd, 23, 3012, |a: V| a.shuffle3012());
+}
+fn g_lanewords4<V: LaneWords4 + Copy>(cx: &mut Cx, g: &mut Gen, ty: u32, n: usize, mk: Mk<V>, rd: Rd<V>) {
+    un_op!(cx, g, ty, n, mk, rd, 24, 1230, |a: V| a.shuffle_lane_words1230());
+    un_op!(cx, g, ty, n, mk, rd, 24, 2301, |a: V| a.shuffle_lane_words2301());
+    un_op!(cx, g, ty, n, mk, rd, 24, 3012, |a: V| a.shuffle_lane_words3012());
+}
+
+// ---- C13 groups ----
+/// op 30: from_lanes then to_lanes; 44: from_lanes then Into<storage>; 45: unpack then to_lanes
+fn g_lanes<V: Copy>(cx: &mut Cx, g: &mut Gen, ty: u32, n: usize, mk: Mk<V>, rd: Rd<V>, lk: Mk<V>, lr: Rd<V>) {
+    for a in g.unary(n) {
+        let r = guard(|| lr(lk(&a)));
+        cx.push(ty, 30, 0, &a, &[], &[], r);
+        let r = guard(|| rd(lk(&a)));
+        cx.push(ty, 44, 0, &a, &[], &[], r);
+        let r = guard(|| lr(mk(&a)));
+        cx.push(ty, 45, 0, &a, &[], &[], r);
+    }
+}
+/// extract / insert of element type E (a word or a lane), `cnt` valid indices, `es` bytes per element
+fn g_vec_elems<V: Copy, E: Copy>(
+    cx: &mut Cx, g: &mut Gen, ty: u32, n: usize, cnt: u32, es: usize, mk: Mk<V>, rd: Rd<V>, mke: Mk<E>, rde: Rd<E>,
+    ext: &dyn Fn(V, u32) -> E, ins: &dyn Fn(V, E, u32) -> V,
+) {
+    let idxs: Vec<u32> = (0..cnt + 2).chain([7u32, 8, 0x8000_0000, 0xffff_fffe, 0xffff_ffff]).collect();
+    for a in g.few(n) {
+        for &i in &idxs {
+            let r = guard(|| rde(ext(mk(&a), i)));
+            cx.push(ty, 31, i, &a, &[], &[], r);
+            for x in [vec![0xa5u8; es], (0..es).map(|t| 0xf0 ^ (t as u8)).collect::<Vec<u8>>(), vec![0u8; es]] {
+                let r = guard(|| rd(ins(mk(&a), mke(&x), i)));
+                cx.push(ty, 32, i, &a, &[], &x, r);
+            }
+        }
+    }
+    // walking one through the inserted element and through the vector, valid indices
+    for i in 0..cnt {
+        let base: Vec<u8> = (0..n).map(|t| t as u8).collect();
+        let ones = vec![0xffu8; n];
+        for j in 0..8 * es {
+            let mut x = vec![0u8; es];
+            x[j / 8] = 1 << (j % 8);
+            let r = guard(|| rd(ins(mk(&base), mke(&x), i)));
+            cx.push(ty, 32, i, &base, &[], &x, r);
+            if j % 3 == 0 {
+                let r = guard(|| rd(ins(mk(&ones), mke(&x), i)));
+                cx.push(ty, 32, i, &ones, &[], &x, r);
+            }
+        }
+        for j in g.walk_bits(n) {
+            let mut a = vec![0u8; n];
+            a[j / 8] = 1 << (j % 8);
+            let r = guard(|| rde(ext(mk(&a), i)));
+            cx.push(ty, 31, i, &a, &[], &[], r);
+            let x = vec![0u8; es];
+            let r = guard(|| rd(ins(mk(&a), mke(&x), i)));
+            cx.push(ty, 32, i, &a, &[], &x, r);
+        }
+    }
+}
+
+/// Store::unpack of a storage built through each available constructor, read with to_lanes (33);
+/// from_lanes, Into<storage>, read through every view (34). `wb` = word size of the vector type.
+fn g_store<M: Machine, S: Copy, V: Copy + Store<S> + Into<S>>(
+    cx: &mut Cx, g: &mut Gen, m: M, ty: u32, n: usize, wb: u32, lk: Mk<V>, lr: Rd<V>,
+    sfrom: &[(u32, &dyn Fn(&[u8]) -> S)], sread: &dyn Fn(S, u32, bool) -> Vec<u8>,
+) {
+    for a in g.unary(n) {
+        for (f, sf) in sfrom {
+            let r = guard(|| lr(m.unpack::<S, V>(sf(&a))));
+            cx.push(ty, 33, (f << 8) | wb, &a, &[], &[], r);
+        }
+        for t in [4u32, 8, 16] {
+            for whole in [false, true] {
+                if whole && n == 16 {
+                    continue;
+                }
+                let r = guard(|| sread(lk(&a).into(), t, whole));
+                cx.push(ty, 34, ((whole as u32) << 16) | (wb << 8) | t, &a, &[], &[], r);
+            }
+        }
+    }
+}
+
+fn g_storebytes<M: Machine, V: Copy + StoreBytes>(cx: &mut Cx, g: &mut Gen, m: M, ty: u32, n: usize, mk: Mk<V>, rd: Rd<V>) {
+    for a in g.unary(n) {
+        let r = guard(|| rd(m.read_le::<V>(&a)));
+        cx.push(ty, 40, 0, &a, &[], &[], r);
+        let r = guard(|| rd(m.read_be::<V>(&a)));
+        cx.push(ty, 41, 0, &a, &[], &[], r);
+        let r = guard(|| {
+            let mut out = vec![0xeeu8; n];
+            mk(&a).write_le(&mut out);
+            out
+        });
+        cx.push(ty, 42, n as u32, &a, &[], &[], r);
+        let r = guard(|| {
+            let mut out = vec![0xeeu8; n];
+            mk(&a).write_be(&mut out);
+            out
+        });
+        cx.push(ty, 43, n as u32, &a, &[], &[], r);
+    }
+    // wrong sizes are reported by panicking (assert_eq! on the slice length) before any access
+    let idx: Vec<u8> = (0..2 * n + 8).map(|t| t as u8).collect();
+    for len in [0usize, 1, n / 2, n - 4, n - 1, n + 1, n + 3, n + 4, 2 * n] {
+        let inp = &idx[..len];
+        let r = guard(|| rd(m.read_le::<V>(inp)));
+        cx.push(ty, 40, 0, inp, &[], &[], r);
+        let r = guard(|| rd(m.read_be::<V>(inp)));
+        cx.push(ty, 41, 0, inp, &[], &[], r);
+        let a = &idx[8..8 + n];
+        let r = guard(|| {
+            let mut out = vec![0xeeu8; len];
+            mk(a).write_le(&mut out);
+            out
+        });
+        cx.push(ty, 42, len as u32, a, &[], &[], r);
+        let r = guard(|| {
+            let mut out = vec![0xeeu8; len];
+            mk(a).write_be(&mut out);
+            out
+        });
+        cx.push(ty, 43, len as u32, a, &[], &[], r);
+    }
+}
+
+fn g_storage(cx: &mut Cx, g: &mut Gen) {
+    for a in g.unary(16) {
+        for t in [4u32, 8, 16] {
+            let r = guard(|| r128v(s128(&a), t));
+            cx.push(10, 35, (4 << 8) | t, &a, &[], &[], r);
+        }
+    }
+    for a in g.unary(32) {
+        for t in [4u32, 8, 16] {
+            for whole in [false, true] {
+                let r = guard(|| r256v(s256(&a), t, whole));
+                cx.push(11, 35, ((whole as u32) << 16) | (4 << 8) | t, &a, &[], &[], r);
+                let r = guard(|| r256v(vec256_storage::from(q4(&a)), t, whole));
+                cx.push(11, 35, ((whole as u32) << 16) | (8 << 8) | t, &a, &[], &[], r);
+            }
+        }
+    }
+    for a in g.unary(64) {
+        for t in [4u32, 8, 16] {
+            for whole in [false, true] {
+                let r = guard(|| r512v(s512(&a), t, whole));
+                cx.push(12, 35, ((whole as u32) << 16) | (4 << 8) | t, &a, &[], &[], r);
+            }
+        }
+    }
+}
+
+// ---------------------------------------------------------------------------
+// what the Machine trait bounds expose, for any machine
+// ---------------------------------------------------------------------------
+fn c12_machine<M: Machine>(m: M, cx: &mut Cx, g: &mut Gen) {
+    {
+        let (mk, rd) = (|b: &[u8]| mk_u32x4(m, b), |v| rd_u32x4::<M>(v));
+        g_bitops0::<M::u32x4>(cx, g, 0, 16, &mk, &rd);
+        g_rot32::<M::u32x4>(cx, g, 0, 16, &mk, &rd);
+        g_arith::<M::u32x4>(cx, g, 0, 16, &mk, &rd);
+        g_words4::<M::u32x4>(cx, g, 0, 16, &mk, &rd);
+        g_lanewords4::<M::u32x4>(cx, g, 0, 16, &mk, &rd);
+    }
+    {
+        let (mk, rd) = (|b: &[u8]| mk_u64x2(m, b), |v| rd_u64x2::<M>(v));
+        g_bitops0::<M::u64x2>(cx, g, 1, 16, &mk, &rd);
+        g_rot32::<M::u64x2>(cx, g, 1, 16, &mk, &rd);
+        g_rot64::<M::u64x2>(cx, g, 1, 16, &mk, &rd);
+        g_arith::<M::u64x2>(cx, g, 1, 16, &mk, &rd);
+    }
+    {
+        let (mk, rd) = (|b: &[u8]| mk_u128x1(m, b), |v| rd_u128x1::<M>(v));
+        g_bitops0::<M::u128x1>(cx, g, 2, 16, &mk, &rd);
+        g_rot32::<M::u128x1>(cx, g, 2, 16, &mk, &rd);
+        g_rot64::<M::u128x1>(cx, g, 2, 16, &mk, &rd);
+        g_swap64::<M::u128x1>(cx, g, 2, 16, &mk, &rd);
+    }
+    {
+        let (mk, rd) = (|b: &[u8]| mk_u32x4x2(m, b), |v| rd_u32x4x2::<M>(v));
+        g_bitops0::<M::u32x4x2>(cx, g, 3, 32, &mk, &rd);
+        g_rot32::<M::u32x4x2>(cx, g, 3, 32, &mk, &rd);
+        g_arith::<M::u32x4x2>(cx, g, 3, 32, &mk, &rd);
+    }
+    {
+        let (mk, rd) = (|b: &[u8]| mk_u64x2x2(m, b), |v| rd_u64x2x2::<M>(v));
+        g_bitops0::<M::u64x2x2>(cx, g, 4, 32, &mk, &rd);
+        g_rot32::<M::u64x2x2>(cx, g, 4, 32, &mk, &rd);
+        g_rot64::<M::u64x2x2>(cx, g, 4, 32, &mk, &rd);
+        g_arith::<M::u64x2x2>(cx, g, 4, 32, &mk, &rd);
+    }
+    {
+        let (mk, rd) = (|b: &[u8]| mk_u64x4(m, b), |v| rd_u64x4::<M>(v));
+        g_bitops0::<M::u64x4>(cx, g, 5, 32, &mk, &rd);
+        g_rot32::<M::u64x4>(cx, g, 5, 32, &mk, &rd);
+        g_rot64::<M::u64x4>(cx, g, 5, 32, &mk, &rd);
+        g_arith::<M::u64x4>(cx, g, 5, 32, &mk, &rd);
+        g_words4::<M::u64x4>(cx, g, 5, 32, &mk, &rd);
+    }
+    {
+        let (mk, rd) = (|b: &[u8]| mk_u128x2(m, b), |v| rd_u128x2::<M>(v));
+        g_bitops0::<M::u128x2>(cx, g, 6, 32, &mk, &rd);
+        g_rot32::<M::u128x2>(cx, g, 6, 32, &mk, &rd);
+        g_rot64::<M::u128x2>(cx, g, 6, 32, &mk, &rd);
+        g_swap64::<M::u128x2>(cx, g, 6, 32, &mk, &rd);
+    }
+    {
+        let (mk, rd) = (|b: &[u8]| mk_u32x4x4(m, b), |v| rd_u32x4x4::<M>(v));
+        g_bitops0::<M::u32x4x4>(cx, g, 7, 64, &mk, &rd);
+        g_rot32::<M::u32x4x4>(cx, g, 7, 64, &mk, &rd);
+        g_arith::<M::u32x4x4>(cx, g, 7, 64, &mk, &rd);
+        g_lanewords4::<M::u32x4x4>(cx, g, 7, 64, &mk, &rd);
+    }
+    {
+        let (mk, rd) = (|b: &[u8]| mk_u64x2x4(m, b), |v| rd_u64x2x4::<M>(v));
+        g_bitops0::<M::u64x2x4>(cx, g, 8, 64, &mk, &rd);
+        g_rot32::<M::u64x2x4>(cx, g, 8, 64, &mk, &rd);
+        g_rot64::<M::u64x2x4>(cx, g, 8, 64, &mk, &rd);
+        g_arith::<M::u64x2x4>(cx, g, 8, 64, &mk, &rd);
+    }
+    {
+        let (mk, rd) = (|b: &[u8]| mk_u128x4(m, b), |v| rd_u128x4::<M>(v));
+        g_bitops0::<M::u128x4>(cx, g, 9, 64, &mk, &rd);
+        g_rot32::<M::u128x4>(cx, g, 9, 64, &mk, &rd);
+        g_rot64::<M::u128x4>(cx, g, 9, 64, &mk, &rd);
+        g_swap64::<M::u128x4>(cx, g, 9, 64, &mk, &rd);
+    }
+}
+
+/// methods the concrete x86 types implement beyond the Machine bounds (true of all five machines)
+fn c12_extras<M: Machine>(m: M, cx: &mut Cx, g: &mut Gen)
+where
+    M::u128x1: BSwap,
+    M::u128x2: BSwap,
+    M::u128x4: BSwap,
+    M::u32x4x2: LaneWords4,
+    M::u32x4: core::ops::BitAndAssign + core::ops::BitOrAssign,
+    M::u64x2: core::ops::BitAndAssign + core::ops::BitOrAssign,
+    M::u128x1: core::ops::BitAndAssign + core::ops::BitOrAssign,
+    M::u32x4x2: core::ops::BitAndAssign + core::ops::BitOrAssign,
+{
+    {
+        let (mk, rd) = (|b: &[u8]| mk_u128x1(m, b), |v| rd_u128x1::<M>(v));
+        g_bswap::<M::u128x1>(cx, g, 2, 16, &mk, &rd);
+        g_assign_extra::<M::u128x1>(cx, g, 2, 16, &mk, &rd);
+    }
+    {
+        let (mk, rd) = (|b: &[u8]| mk_u128x2(m, b), |v| rd_u128x2::<M>(v));
+        g_bswap::<M::u128x2>(cx, g, 6, 32, &mk, &rd);
+    }
+    {
+        let (mk, rd) = (|b: &[u8]| mk_u128x4(m, b), |v| rd_u128x4::<M>(v));
+        g_bswap::<M::u128x4>(cx, g, 9, 64, &mk, &rd);
+    }
+    {
+        let (mk, rd) = (|b: &[u8]| mk_u32x4x2(m, b), |v| rd_u32x4x2::<M>(v));
+        g_lanewords4::<M::u32x4x2>(cx, g, 3, 32, &mk, &rd);
+        g_assign_extra::<M::u32x4x2>(cx, g, 3, 32, &mk, &rd);
+    }
+    {
+        let (mk, rd) = (|b: &[u8]| mk_u32x4(m, b), |v| rd_u32x4::<M>(v));
+        g_assign_extra::<M::u32x4>(cx, g, 0, 16, &mk, &rd);
+    }
+    {
+        let (mk, rd) = (|b: &[u8]| mk_u64x2(m, b), |v| rd_u64x2::<M>(v));
+        g_assign_extra::<M::u64x2>(cx, g, 1, 16, &mk, &rd);
+    }
+}
+
+fn c13_machine<M: Machine>(m: M, cx: &mut Cx, g: &mut Gen) {
+    let mk32 = |b: &[u8]| w32(b);
+    let rd32 = |x: u32| x.to_le_bytes().to_vec();
+    let mk64 = |b: &[u8]| w64(b);
+    let rd64 = |x: u64| x.to_le_bytes().to_vec();
+    let f128: [(u32, &dyn Fn(&[u8]) -> vec128_storage); 1] = [(4, &|b: &[u8]| s128(b))];
+    let f256: [(u32, &dyn Fn(&[u8]) -> vec256_storage); 2] = [(4, &|b: &[u8]| s256(b)), (8, &|b: &[u8]| vec256_storage::from(q4(b)))];
+    let f512: [(u32, &dyn Fn(&[u8]) -> vec512_storage); 1] = [(4, &|b: &[u8]| s512(b))];
+    let v128 = |s: vec128_storage, t: u32, _w: bool| r128v(s, t);
+    let v256 = |s: vec256_storage, t: u32, w: bool| r256v(s, t, w);
+    let v512 = |s: vec512_storage, t: u32, w: bool| r512v(s, t, w);
+    {
+        let (mk, rd) = (|b: &[u8]| mk_u32x4(m, b), |v| rd_u32x4::<M>(v));
+        let (lk, lr) = (|b: &[u8]| lk_u32x4(m, b), |v| lr_u32x4::<M>(v));
+        g_lanes::<M::u32x4>(cx, g, 0, 16, &mk, &rd, &lk, &lr);
+        g_vec_elems::<M::u32x4, u32>(cx, g, 0, 16, 4, 4, &mk, &rd, &mk32, &rd32, &|v, i| v.extract(i), &|v, e, i| v.insert(e, i));
+        g_store::<M, vec128_storage, M::u32x4>(cx, g, m, 0, 16, 4, &lk, &lr, &f128, &v128);
+        g_storebytes::<M, M::u32x4>(cx, g, m, 0, 16, &mk, &rd);
+    }
+    {
+        let (mk, rd) = (|b: &[u8]| mk_u64x2(m, b), |v| rd_u64x2::<M>(v));
+        let (lk, lr) = (|b: &[u8]| lk_u64x2(m, b), |v| lr_u64x2::<M>(v));
+        g_lanes::<M::u64x2>(cx, g, 1, 16, &mk, &rd, &lk, &lr);
+        g_vec_elems::<M::u64x2, u64>(cx, g, 1, 16, 2, 8, &mk, &rd, &mk64, &rd64, &|v, i| v.extract(i), &|v, e, i| v.insert(e, i));
+        g_store::<M, vec128_storage, M::u64x2>(cx, g, m, 1, 16, 8, &lk, &lr, &f128, &v128);
+    }
+    {
+        let (mk, rd) = (|b: &[u8]| mk_u128x1(m, b), |v| rd_u128x1::<M>(v));
+        let (lk, lr) = (|b: &[u8]| lk_u128x1(m, b), |v| lr_u128x1::<M>(v));
+        g_lanes::<M::u128x1>(cx, g, 2, 16, &mk, &rd, &lk, &lr);
+        g_store::<M, vec128_storage, M::u128x1>(cx, g, m, 2, 16, 16, &lk, &lr, &f128, &v128);
+    }
+    {
+        let (mk, rd) = (|b: &[u8]| mk_u32x4x2(m, b), |v| rd_u32x4x2::<M>(v));
+        let (lk, lr) = (|b: &[u8]| lk_u32x4x2(m, b), |v| lr_u32x4x2::<M>(v));
+        let (mke, rde) = (|b: &[u8]| mk_u32x4(m, b), |v| rd_u32x4::<M>(v));
+        g_lanes::<M::u32x4x2>(cx, g, 3, 32, &mk, &rd, &lk, &lr);
+        g_vec_elems::<M::u32x4x2, M::u32x4>(cx, g, 3, 32, 2, 16, &mk, &rd, &mke, &rde, &|v, i| v.extract(i), &|v, e, i| v.insert(e, i));
+        g_store::<M, vec256_storage, M::u32x4x2>(cx, g, m, 3, 32, 4, &lk, &lr, &f256, &v256);
+        g_storebytes::<M, M::u32x4x2>(cx, g, m, 3, 32, &mk, &rd);
+    }
+    {
+        let (mk, rd) = (|b: &[u8]| mk_u64x2x2(m, b), |v| rd_u64x2x2::<M>(v));
+        let (lk, lr) = (|b: &[u8]| lk_u64x2x2(m, b), |v| lr_u64x2x2::<M>(v));
+        let (mke, rde) = (|b: &[u8]| mk_u64x2(m, b), |v| rd_u64x2::<M>(v));
+        g_lanes::<M::u64x2x2>(cx, g, 4, 32, &mk, &rd, &lk, &lr);
+        g_vec_elems::<M::u64x2x2, M::u64x2>(cx, g, 4, 32, 2, 16, &mk, &rd, &mke, &rde, &|v, i| v.extract(i), &|v, e, i| v.insert(e, i));
+        g_store::<M, vec256_storage, M::u64x2x2>(cx, g, m, 4, 32, 8, &lk, &lr, &f256, &v256);
+        g_storebytes::<M, M::u64x2x2>(cx, g, m, 4, 32, &mk, &rd);
+    }
+    {
+        let (mk, rd) = (|b: &[u8]| mk_u64x4(m, b), |v| rd_u64x4::<M>(v));
+        let (lk, lr) = (|b: &[u8]| lk_u64x4(m, b), |v| lr_u64x4::<M>(v));
+        g_lanes::<M::u64x4>(cx, g, 5, 32, &mk, &rd, &lk, &lr);
+        g_vec_elems::<M::u64x4, u64>(cx, g, 5, 32, 4, 8, &mk, &rd, &mk64, &rd64, &|v, i| v.extract(i), &|v, e, i| v.insert(e, i));
+        g_store::<M, vec256_storage, M::u64x4>(cx, g, m, 5, 32, 8, &lk, &lr, &f256, &v256);
+        g_storebytes::<M, M::u64x4>(cx, g, m, 5, 32, &mk, &rd);
+    }
+    {
+        let (mk, rd) = (|b: &[u8]| mk_u128x2(m, b), |v| rd_u128x2::<M>(v));
+        let (lk, lr) = (|b: &[u8]| lk_u128x2(m, b), |v| lr_u128x2::<M>(v));
+        let (mke, rde) = (|b: &[u8]| mk_u128x1(m, b), |v| rd_u128x1::<M>(v));
+        g_lanes::<M::u128x2>(cx, g, 6, 32, &mk, &rd, &lk, &lr);
+        g_vec_elems::<M::u128x2, M::u128x1>(cx, g, 6, 32, 2, 16, &mk, &rd, &mke, &rde, &|v, i| v.extract(i), &|v, e, i| v.insert(e, i));
+        g_store::<M, vec256_storage, M::u128x2>(cx, g, m, 6, 32, 16, &lk, &lr, &f256, &v256);
+    }
+    {
+        let (mk, rd) = (|b: &[u8]| mk_u32x4x4(m, b), |v| rd_u32x4x4::<M>(v));
+        let (lk, lr) = (|b: &[u8]| lk_u32x4x4(m, b), |v| lr_u32x4x4::<M>(v));
+        let (mke, rde) = (|b: &[u8]| mk_u32x4(m, b), |v| rd_u32x4::<M>(v));
+        g_lanes::<M::u32x4x4>(cx, g, 7, 64, &mk, &rd, &lk, &lr);
+        g_vec_elems::<M::u32x4x4, M::u32x4>(cx, g, 7, 64, 4, 16, &mk, &rd, &mke, &rde, &|v, i| v.extract(i), &|v, e, i| v.insert(e, i));
+        g_store::<M, vec512_storage, M::u32x4x4>(cx, g, m, 7, 64, 4, &lk, &lr, &f512, &v512);
+        g_storebytes::<M, M::u32x4x4>(cx, g, m, 7, 64, &mk, &rd);
+        for a in g.unary(64) {
+            let r = guard(|| {
+                let s: [u32; 16] = mk(&a).to_scalars();
+                bytes32(&s)
+            });
+            cx.push(7, 51, 0, &a, &[], &[], r);
+        }
+        // transpose4: a = the four operands concatenated, result = the four results concatenated
+        let mut quads: Vec<Vec<u8>> = Vec::new();
+        quads.push((0..256usize).map(|t| t as u8).collect());
+        quads.push(vec![0xffu8; 256]);
+        for _ in 0..g.nrand {
+            let mut b = vec![0u8; 256];
+            g.rng.fill(&mut b);
+            quads.push(b);
+        }
+        let stride = if g.quick { 5 } else { 1 };
+        for j in (0..2048usize).filter(|j| j % stride == 0) {
+            let mut b = vec![0u8; 256];
+            b[j / 8] = 1 << (j % 8);
+            quads.push(b);
+        }
+        for a in quads {
+            let r = guard(|| {
+                let (p, q, s, t) = <M::u32x4x4 as Vec4Ext<M::u32x4>>::transpose4(mk(&a[0..64]), mk(&a[64..128]), mk(&a[128..192]), mk(&a[192..256]));
+                [rd(p), rd(q), rd(s), rd(t)].concat()
+            });
+            cx.push(7, 50, 0, &a, &[], &[], r);
+        }
+    }
+    {
+        let (mk, rd) = (|b: &[u8]| mk_u64x2x4(m, b), |v| rd_u64x2x4::<M>(v));
+        let (lk, lr) = (|b: &[u8]| lk_u64x2x4(m, b), |v| lr_u64x2x4::<M>(v));
+        let (mke, rde) = (|b: &[u8]| mk_u64x2(m, b), |v| rd_u64x2::<M>(v));
+        g_lanes::<M::u64x2x4>(cx, g, 8, 64, &mk, &rd, &lk, &lr);
+        g_vec_elems::<M::u64x2x4, M::u64x2>(cx, g, 8, 64, 4, 16, &mk, &rd, &mke, &rde, &|v, i| v.extract(i), &|v, e, i| v.insert(e, i));
+        g_store::<M, vec512_storage, M::u64x2x4>(cx, g, m, 8, 64, 8, &lk, &lr, &f512, &v512);
+    }
+    {
+        let (mk, rd) = (|b: &[u8]| mk_u128x4(m, b), |v| rd_u128x4::<M>(v));
+        let (lk, lr) = (|b: &[u8]| lk_u128x4(m, b), |v| lr_u128x4::<M>(v));
+        let (mke, rde) = (|b: &[u8]| mk_u128x1(m, b), |v| rd_u128x1::<M>(v));
+        g_lanes::<M::u128x4>(cx, g, 9, 64, &mk, &rd, &lk, &lr);
+        g_vec_elems::<M::u128x4, M::u128x1>(cx, g, 9, 64, 4, 16, &mk, &rd, &mke, &rde, &|v, i| v.extract(i), &|v, e, i| v.insert(e, i));
+        g_store::<M, vec512_storage, M::u128x4>(cx, g, m, 9, 64, 16, &lk, &lr, &f512, &v512);
+    }
+}
+
+/// C13 methods beyond the Machine bounds: StoreBytes of u64x2 / u128x1 / u64x2x4, the
+/// u128 -> u32/u64 vector conversions the u128x1/x2/x4 impls promise in their where-clauses
+fn c13_extras<M: Machine>(m: M, cx: &mut Cx, g: &mut Gen)
+where
+    M::u64x2: StoreBytes,
+    M::u128x1: StoreBytes + Into<M::u32x4> + Into<M::u64x2>,
+    M::u64x2x4: StoreBytes,
+    M::u128x2: Into<M::u32x4x2> + Into<M::u64x2x2> + Into<M::u64x4>,
+    M::u128x4: Into<M::u32x4x4> + Into<M::u64x2x4>,
+{
+    {
+        let (mk, rd) = (|b: &[u8]| mk_u64x2(m, b), |v| rd_u64x2::<M>(v));
+        g_storebytes::<M, M::u64x2>(cx, g, m, 1, 16, &mk, &rd);
+    }
+    {
+        let (mk, rd) = (|b: &[u8]| mk_u128x1(m, b), |v| rd_u128x1::<M>(v));
+        g_storebytes::<M, M::u128x1>(cx, g, m, 2, 16, &mk, &rd);
+    }
+    {
+        let (mk, rd) = (|b: &[u8]| mk_u64x2x4(m, b), |v| rd_u64x2x4::<M>(v));
+        g_storebytes::<M, M::u64x2x4>(cx, g, m, 8, 64, &mk, &rd);
+    }
+    for a in g.unary(16) {
+        let r = guard(|| rd_u32x4::<M>(mk_u128x1(m, &a).into()));
+        cx.push(2, 46, 0, &a, &[], &[], r);
+        let r = guard(|| rd_u64x2::<M>(mk_u128x1(m, &a).into()));
+        cx.push(2, 46, 1, &a, &[], &[], r);
+    }
+    for a in g.unary(32) {
+        let r = guard(|| rd_u32x4x2::<M>(mk_u128x2(m, &a).into()));
+        cx.push(6, 46, 3, &a, &[], &[], r);
+        let r = guard(|| rd_u64x2x2::<M>(mk_u128x2(m, &a).into()));
+        cx.push(6, 46, 4, &a, &[], &[], r);
+        let r = guard(|| rd_u64x4::<M>(mk_u128x2(m, &a).into()));
+        cx.push(6, 46, 5, &a, &[], &[], r);
+    }
+    for a in g.unary(64) {
+        let r = guard(|| rd_u32x4x4::<M>(mk_u128x4(m, &a).into()));
+        cx.push(9, 46, 7, &a, &[], &[], r);
+        let r = guard(|| rd_u64x2x4::<M>(mk_u128x4(m, &a).into()));
+        cx.push(9, 46, 8, &a, &[], &[], r);
+    }
+}
+
+fn each_machine(cx: &mut Cx, g: &mut Gen, which: &str, prop: u32) {
+    macro_rules! go {
+        ($idx:expr, $M:ident) => {
+            if which == "all" || which.eq_ignore_ascii_case(MACH[$idx]) {
+                cx.m = $idx;
+                g.light = $idx == 3;
+                let m = unsafe { $M::instance() };
+                if prop == 12 {
+                    c12_machine(m, cx, g);
+                    c12_extras(m, cx, g);
+                } else {
+                    c13_machine(m, cx, g);
+                    c13_extras(m, cx, g);
+                }
+            }
+        };
+    }
+    go!(0, SSE2);
+    go!(1, SSSE3);
+    go!(2, SSE41);
+    go!(3, AVX);
+    go!(4, AVX2);
+    g.light = false;
+    if prop == 13 {
+        cx.m = 0;
+        g_storage(cx, g);
+    }
+}
+
+// ---------------------------------------------------------------------------
+// raw intrinsics against Model/Intrinsics.v (case kind picase)
+// ---------------------------------------------------------------------------
+struct ICase {
+    id: u32,
+    imm: u64,
+    a: Vec<u8>,
+    b: Vec<u8>,
+    r: Vec<u8>,
+}
+impl ICase {
+    fn coq(&self) -> String {
+        format!("PI {} {} {} {} {} {} {} {}", self.id, self.imm, self.a.len(), ilit(&self.a), self.b.len(), ilit(&self.b), self.r.len(), ilit(&self.r))
+    }
+    fn json(&self) -> String {
+        format!(
+            "{{\"intrinsic\":{},\"imm\":{},\"a\":{},\"b\":{},\"result\":{}}}",
+            jstr(intr_name(self.id)),
+            self.imm,
+            jstr(&hex(&self.a)),
+            jstr(&hex(&self.b)),
+            jstr(&hex(&self.r))
+        )
+    }
+}
+fn intr_name(id: u32) -> &'static str {
+    match id {
+        1 => "_mm_add_epi32",
+        2 => "_mm_add_epi64",
+        3 => "_mm_and_si128",
+        4 => "_mm_or_si128",
+        5 => "_mm_xor_si128",
+        6 => "_mm_andnot_si128",
+        7 => "_mm_srli_epi16",
+        8 => "_mm_slli_epi16",
+        9 => "_mm_srli_epi32",
+        10 => "_mm_slli_epi32",
+        11 => "_mm_srli_epi64",
+        12 => "_mm_slli_epi64",
+        13 => "_mm_srli_si128",
+        14 => "_mm_slli_si128",
+        15 => "_mm_shuffle_epi32",
+        16 => "_mm_shufflelo_epi16",
+        17 => "_mm_shufflehi_epi16",
+        18 => "_mm_shuffle_epi8",
+        19 => "_mm_alignr_epi8",
+        20 => "_mm_unpacklo_epi8",
+        21 => "_mm_unpackhi_epi8",
+        22 => "_mm_packus_epi16",
+        23 => "_mm_setzero_si128",
+        24 => "_mm_set_epi64x",
+        25 => "_mm_set1_epi64x",
+        26 => "_mm_set1_epi8",
+        27 => "_mm_set_epi32",
+        28 => "_mm_cvtsi32_si128",
+        29 => "_mm_cvtsi64_si128",
+        30 => "_mm_cvtsi128_si64",
+        31 => "_mm_extract_epi64",
+        32 => "_mm_insert_epi64",
+        33 => "_mm_insert_epi32",
+        34 => "_mm_move_epi64",
+        35 => "_mm_cmpeq_epi32",
+        40 => "_mm256_add_epi32",
+        41 => "_mm256_and_si256",
+        42 => "_mm256_or_si256",
+        43 => "_mm256_xor_si256",
+        44 => "_mm256_andnot_si256",
+        45 => "_mm256_srli_epi32",
+        46 => "_mm256_slli_epi32",
+        47 => "_mm256_shuffle_epi8",
+        48 => "_mm256_shuffle_epi32",
+        49 => "_mm256_set_epi64x",
+        50 => "_mm256_set1_epi8",
+        51 => "_mm256_extracti128_si256",
+        52 => "_mm256_inserti128_si256",
+        53 => "_mm256_setr_m128i",
+        54 => "_mm256_permute2x128_si256",
+        _ => "?",
+    }
+}
+
+#[target_feature(enable = "avx2,sse4.1,ssse3")]
+unsafe fn intr_cases(g: &mut Gen, out: &mut Vec<ICase>) {
+    let ld = |b: &[u8]| -> __m128i { _mm_loadu_si128(b.as_ptr() as *const _) };
+    let st = |x: __m128i| -> Vec<u8> {
+        let mut o = vec![0u8; 16];
+        _mm_storeu_si128(o.as_mut_ptr() as *mut _, x);
+        o
+    };
+    let ld2 = |b: &[u8]| -> __m256i { _mm256_loadu_si256(b.as_ptr() as *const _) };
+    let st2 = |x: __m256i| -> Vec<u8> {
+        let mut o = vec![0u8; 32];
+        _mm256_storeu_si256(o.as_mut_ptr() as *mut _, x);
+        o
+    };
+    let un16 = g.unary(16);
+    let bin16 = g.binary(16);
+    let un32 = g.unary(32);
+    let bin32 = g.binary(32);
+    macro_rules! bin {
+        ($id:expr, $f:ident) => {
+            for (a, b) in &bin16 {
+                out.push(ICase { id: $id, imm: 0, a: a.clone(), b: b.clone(), r: st($f(ld(a), ld(b))) });
+            }
+        };
+    }
+    macro_rules! bin2 {
+        ($id:expr, $f:ident) => {
+            for (a, b) in &bin32 {
+                out.push(ICase { id: $id, imm: 0, a: a.clone(), b: b.clone(), r: st2($f(ld2(a), ld2(b))) });
+            }
+        };
+    }
+    macro_rules! immop {
+        ($id:expr, $f:ident, [$($i:literal),*]) => {
+            $(for a in &un16 {
+                out.push(ICase { id: $id, imm: $i as u64, a: a.clone(), b: vec![], r: st($f::<$i>(ld(a))) });
+            })*
+        };
+    }
+    macro_rules! immop2 {
+        ($id:expr, $f:ident, [$($i:literal),*]) => {
+            $(for a in &un32 {
+                out.push(ICase { id: $id, imm: $i as u64, a: a.clone(), b: vec![], r: st2($f::<$i>(ld2(a))) });
+            })*
+        };
+    }
+    bin!(1, _mm_add_epi32);
+    bin!(2, _mm_add_epi64);
+    bin!(3, _mm_and_si128);
+    bin!(4, _mm_or_si128);
+    bin!(5, _mm_xor_si128);
+    bin!(6, _mm_andnot_si128);
+    immop!(7, _mm_srli_epi16, [0, 1, 2, 4, 8, 15, 16, 17]);
+    immop!(8, _mm_slli_epi16, [0, 1, 2, 4, 8, 15, 16, 17]);
+    immop!(9, _mm_srli_epi32, [0, 7, 8, 11, 12, 16, 20, 24, 25, 31, 32, 33, 21, 13]);
+    immop!(10, _mm_slli_epi32, [0, 7, 8, 11, 12, 16, 20, 24, 25, 31, 32, 33, 21, 13]);
+    immop!(11, _mm_srli_epi64, [0, 7, 8, 11, 12, 16, 20, 24, 25, 32, 63, 64, 65, 57, 56, 53, 52, 48, 44, 40, 39]);
+    immop!(12, _mm_slli_epi64, [0, 7, 8, 11, 12, 16, 20, 24, 25, 32, 63, 64, 65, 57, 56, 53, 52, 48, 44, 40, 39]);
+    immop!(13, _mm_srli_si128, [0, 1, 4, 7, 8, 12, 15, 16, 17, 255]);
+    immop!(14, _mm_slli_si128, [0, 1, 4, 7, 8, 12, 15, 16, 17, 255]);
+    immop!(15, _mm_shuffle_epi32, [0x00, 0x1b, 0x39, 0x4e, 0x93, 0xb1, 0xe4, 0xee, 0x78, 0xb4, 0xc9, 0xe1, 0xc6, 0xff, 0x55, 0xaa, 0x27, 0x8d]);
+    immop!(16, _mm_shufflelo_epi16, [0x00, 0x1b, 0xb1, 0xe4, 0x39, 0x93, 0x4e, 0xff, 0x6c]);
+    immop!(17, _mm_shufflehi_epi16, [0x00, 0x1b, 0xb1, 0xe4, 0x39, 0x93, 0x4e, 0xff, 0x6c]);
+    // pshufb: data x the masks used by the crate, index patterns, high-bit masks, random masks
+    let mut masks: Vec<Vec<u8>> = Vec::new();
+    for (k0, k1) in [
+        (0x0c0f_0e0d_080b_0a09u64, 0x0407_0605_0003_0201u64),
+        (0x0d0c_0f0e_0908_0b0a, 0x0504_0706_0100_0302),
+        (0x0e0d_0c0f_0a09_080b, 0x0605_0407_0201_0003),
+        (0x080f_0e0d_0c0b_0a09, 0x0007_0605_0403_0201),
+        (0x0908_0f0e_0d0c_0b0a, 0x0100_0706_0504_0302),
+        (0x0a09_080f_0e0d_0c0b, 0x0201_0007_0605_0403),
+        (0x0c0d_0e0f_0809_0a0b, 0x0405_0607_0001_0203),
+        (0x0809_0a0b_0c0d_0e0f, 0x0001_0203_0405_0607),
+        (0x0001_0203_0405_0607, 0x0809_0a0b_0c0d_0e0f),
+        (0x0e0f_0c0d_0a0b_0809, 0x0607_0405_0203_0001),
+        (0x0f0e_0d0c_0b0a_0908, 0x0706_0504_0302_0100),
+        (0x8f0e_8d0c_8b0a_8908, 0x0786_0584_0382_0180),
+        (0x7f6e_5d4c_3b2a_1908, 0x17f6_e5d4_c3b2_a190),
+    ] {
+        masks.push([k1.to_le_bytes(), k0.to_le_bytes()].concat());
+    }
+    for _ in 0..g.nrand + 4 {
+        let mut b = vec![0u8; 16];
+        g.rng.fill(&mut b);
+        masks.push(b);
+    }
+    let few16 = g.few(16);
+    for a in &few16 {
+        for mk in &masks {
+            out.push(ICase { id: 18, imm: 0, a: a.clone(), b: mk.clone(), r: st(_mm_shuffle_epi8(ld(a), ld(mk))) });
+        }
+    }
+    for a in &un16 {
+        let mk = &masks[a[0] as usize % masks.len()];
+        out.push(ICase { id: 18, imm: 0, a: a.clone(), b: mk.clone(), r: st(_mm_shuffle_epi8(ld(a), ld(mk))) });
+    }
+    macro_rules! alignr {
+        ([$($i:literal),*]) => {
+            $(for (a, b) in bin16.iter().take(40) {
+                out.push(ICase { id: 19, imm: $i as u64, a: a.clone(), b: b.clone(), r: st(_mm_alignr_epi8::<$i>(ld(a), ld(b))) });
+            })*
+        };
+    }
+    alignr!([0, 1, 4, 8, 12, 15, 16, 17, 24, 31, 32, 33]);
+    bin!(20, _mm_unpacklo_epi8);
+    bin!(21, _mm_unpackhi_epi8);
+    bin!(22, _mm_packus_epi16);
+    out.push(ICase { id: 23, imm: 0, a: vec![], b: vec![], r: st(_mm_setzero_si128()) });
+    for a in &un16 {
+        out.push(ICase { id: 24, imm: 0, a: a.clone(), b: vec![], r: st(_mm_set_epi64x(w64(&a[8..]) as i64, w64(&a[0..]) as i64)) });
+        out.push(ICase { id: 25, imm: 0, a: a.clone(), b: vec![], r: st(_mm_set1_epi64x(w64(&a[0..]) as i64)) });
+        let d = d4(a);
+        out.push(ICase { id: 27, imm: 0, a: a.clone(), b: vec![], r: st(_mm_set_epi32(d[3] as i32, d[2] as i32, d[1] as i32, d[0] as i32)) });
+        out.push(ICase { id: 28, imm: 0, a: a.clone(), b: vec![], r: st(_mm_cvtsi32_si128(d[0] as i32)) });
+        out.push(ICase { id: 29, imm: 0, a: a.clone(), b: vec![], r: st(_mm_cvtsi64_si128(w64(&a[0..]) as i64)) });
+        out.push(ICase { id: 30, imm: 0, a: a.clone(), b: vec![], r: (_mm_cvtsi128_si64(ld(a)) as u64).to_le_bytes().to_vec() });
+        out.push(ICase { id: 31, imm: 0, a: a.clone(), b: vec![], r: (_mm_extract_epi64::<0>(ld(a)) as u64).to_le_bytes().to_vec() });
+        out.push(ICase { id: 31, imm: 1, a: a.clone(), b: vec![], r: (_mm_extract_epi64::<1>(ld(a)) as u64).to_le_bytes().to_vec() });
+        out.push(ICase { id: 34, imm: 0, a: a.clone(), b: vec![], r: st(_mm_move_epi64(ld(a))) });
+    }
+    for v in 0..=255u64 {
+        out.push(ICase { id: 26, imm: v, a: vec![], b: vec![], r: st(_mm_set1_epi8(v as u8 as i8)) });
+        out.push(ICase { id: 50, imm: v, a: vec![], b: vec![], r: st2(_mm256_set1_epi8(v as u8 as i8)) });
+    }
+    for (a, b) in &bin16 {
+        let v = w64(b);
+        out.push(ICase { id: 32, imm: 0, a: a.clone(), b: b[..8].to_vec(), r: st(_mm_insert_epi64::<0>(ld(a), v as i64)) });
+        out.push(ICase { id: 32, imm: 1, a: a.clone(), b: b[..8].to_vec(), r: st(_mm_insert_epi64::<1>(ld(a), v as i64)) });
+        let v = w32(b);
+        out.push(ICase { id: 33, imm: 0, a: a.clone(), b: b[..4].to_vec(), r: st(_mm_insert_epi32::<0>(ld(a), v as i32)) });
+        out.push(ICase { id: 33, imm: 1, a: a.clone(), b: b[..4].to_vec(), r: st(_mm_insert_epi32::<1>(ld(a), v as i32)) });
+        out.push(ICase { id: 33, imm: 2, a: a.clone(), b: b[..4].to_vec(), r: st(_mm_insert_epi32::<2>(ld(a), v as i32)) });
+        out.push(ICase { id: 33, imm: 3, a: a.clone(), b: b[..4].to_vec(), r: st(_mm_insert_epi32::<3>(ld(a), v as i32)) });
+    }
+    bin!(35, _mm_cmpeq_epi32);
+    // partially equal lanes for cmpeq
+    for a in &un16 {
+        let mut b = a.clone();
+        b[5] ^= 1;
+        b[15] ^= 0x80;
+        out.push(ICase { id: 35, imm: 0, a: a.clone(), b: b.clone(), r: st(_mm_cmpeq_epi32(ld(a), ld(&b))) });
+    }
+    // 256-bit
+    bin2!(40, _mm256_add_epi32);
+    bin2!(41, _mm256_and_si256);
+    bin2!(42, _mm256_or_si256);
+    bin2!(43, _mm256_xor_si256);
+    bin2!(44, _mm256_andnot_si256);
+    immop2!(45, _mm256_srli_epi32, [0, 7, 11, 12, 20, 25, 31, 32, 33]);
+    immop2!(46, _mm256_slli_epi32, [0, 7, 12, 20, 21, 25, 31, 32, 33]);
+    let few32 = g.few(32);
+    for a in few32.iter().chain(un32.iter().take(12)) {
+        for (i, mk) in masks.iter().enumerate() {
+            let mk2 = [mk.clone(), masks[(i + 3) % masks.len()].clone()].concat();
+            out.push(ICase { id: 47, imm: 0, a: a.clone(), b: mk2.clone(), r: st2(_mm256_shuffle_epi8(ld2(a), ld2(&mk2))) });
+            let mk1 = [mk.clone(), mk.clone()].concat();
+            out.push(ICase { id: 47, imm: 0, a: a.clone(), b: mk1.clone(), r: st2(_mm256_shuffle_epi8(ld2(a), ld2(&mk1))) });
+        }
+    }
+    immop2!(48, _mm256_shuffle_epi32, [0x00, 0x1b, 0x39, 0x4e, 0x93, 0xb1, 0xe4, 0xff, 0x6c]);
+    for a in &un32 {
+        let q = q4(a);
+        out.push(ICase { id: 49, imm: 0, a: a.clone(), b: vec![], r: st2(_mm256_set_epi64x(q[3] as i64, q[2] as i64, q[1] as i64, q[0] as i64)) });
+        out.push(ICase { id: 51, imm: 0, a: a.clone(), b: vec![], r: st(_mm256_extracti128_si256::<0>(ld2(a))) });
+        out.push(ICase { id: 51, imm: 1, a: a.clone(), b: vec![], r: st(_mm256_extracti128_si256::<1>(ld2(a))) });
+    }
+    for (a, b) in &bin32 {
+        out.push(ICase { id: 52, imm: 0, a: a.clone(), b: b[..16].to_vec(), r: st2(_mm256_inserti128_si256::<0>(ld2(a), ld(&b[..16]))) });
+        out.push(ICase { id: 52, imm: 1, a: a.clone(), b: b[16..].to_vec(), r: st2(_mm256_inserti128_si256::<1>(ld2(a), ld(&b[16..]))) });
+    }
+    for (a, b) in &bin16 {
+        out.push(ICase { id: 53, imm: 0, a: a.clone(), b: b.clone(), r: st2(_mm256_setr_m128i(ld(a), ld(b))) });
+    }
+    macro_rules! perm {
+        ([$($i:literal),*]) => {
+            $(for (a, b) in bin32.iter().take(30) {
+                out.push(ICase { id: 54, imm: $i as u64, a: a.clone(), b: b.clone(), r: st2(_mm256_permute2x128_si256::<$i>(ld2(a), ld2(b))) });
+            })*
+        };
+    }
+    perm!([0x20, 0x31, 0x00, 0x11, 0x02, 0x13, 0x30, 0x21, 0x12, 0x03, 0x23, 0x32, 0x08, 0x80, 0x88, 0x28, 0x81, 0x3a, 0xf7, 0x64]);
+}
+
+// ---------------------------------------------------------------------------
+fn finish(cx: Cx, out: &str, shards: usize, sub: &str, quick: bool, which: &str) {
+    let coq: Vec<String> = cx.cases.iter().map(|c| c.coq()).collect();
+    write_shards(out, shards, "From Coq Require Import NArith List Uint63.\nFrom CC Require Import Run.Runner Run.Ppv.", "pxcase", "run_px", &coq);
+    let all: Vec<String> = cx.cases.iter().map(|c| c.json()).collect();
+    std::fs::write(format!("{}/cases.json", out), format!("[{}]", all.join(",\n"))).unwrap();
+    let n = cx.cases.len();
+    let mut samples: Vec<String> = Vec::new();
+    for i in [n / 7, n / 3, n / 2, n.saturating_sub(1)] {
+        if i < n {
+            samples.push(cx.cases[i].json());
+        }
+    }
+    let mut ops: std::collections::BTreeMap<String, usize> = Default::default();
+    for c in &cx.cases {
+        let name = match c.op {
+            31 | 32 | 33 | 34 | 35 | 42 | 43 => op_name(c.op, 0).split('(').next().unwrap_or("").trim().to_string(),
+            _ => op_name(c.op, c.k),
+        };
+        *ops.entry(name).or_default() += 1;
+    }
+    let opmix: Vec<String> = ops.iter().map(|(k, v)| format!("{}:{}", jstr(k), v)).collect();
+    let pt: Vec<String> = (0..13).filter(|&t| cx.per_type[t] > 0).map(|t| format!("{}:{}", jstr(ty_name(t as u32)), cx.per_type[t])).collect();
+    let pm: Vec<String> = (0..5).filter(|&t| cx.per_mach[t] > 0).map(|t| format!("{}:{}", jstr(MACH[t]), cx.per_mach[t])).collect();
+    println!(
+        "{{\"evaluations\":{},\"distinct_nontrivial\":{},\"direct_failures\":[],\"samples\":[{}],\"sub\":{},\"machines\":{},\"profile\":{},\"tier_quick\":{},\"outcome_panic\":{},\"per_machine\":{{{}}},\"per_type\":{{{}}},\"op_mix\":{{{}}}}}",
+        n,
+        cx.distinct.len(),
+        samples.join(","),
+        jstr(sub),
+        jstr(which),
+        jstr(if cfg!(debug_assertions) { "debug" } else { "release" }),
+        quick,
+        cx.panics,
+        pm.join(","),
+        pt.join(","),
+        opmix.join(",")
+    );
+}
+
+fn finish_intr(cases: Vec<ICase>, out: &str, shards: usize, quick: bool) {
+    let coq: Vec<String> = cases.iter().map(|c| c.coq()).collect();
+    write_shards(out, shards, "From Coq Require Import NArith List Uint63.\nFrom CC Require Import Run.Runner Run.Ppv.", "picase", "run_pi", &coq);
+    let all: Vec<String> = cases.iter().map(|c| c.json()).collect();
+    std::fs::write(format!("{}/cases.json", out), format!("[{}]", all.join(",\n"))).unwrap();
+    let n = cases.len();
+    let mut distinct: HashSet<(u32, u64, Vec<u8>, Vec<u8>)> = HashSet::new();
+    let mut per: std::collections::BTreeMap<&'static str, usize> = Default::default();
+    for c in &cases {
+        if c.a.iter().chain(c.b.iter()).any(|&v| v != 0) || c.imm != 0 {
+            distinct.insert((c.id, c.imm, c.a.clone(), c.b.clone()));
+        }
+        *per.entry(intr_name(c.id)).or_default() += 1;
+    }
+    let mut samples: Vec<String> = Vec::new();
+    for i in [n / 7, n / 3, n / 2, n.saturating_sub(1)] {
+        if i < n {
+            samples.push(cases[i].json());
+        }
+    }
+    let pi: Vec<String> = per.iter().map(|(k, v)| format!("{}:{}", jstr(k), v)).collect();
+    println!(
+        "{{\"evaluations\":{},\"distinct_nontrivial\":{},\"direct_failures\":[],\"samples\":[{}],\"sub\":\"intr\",\"tier_quick\":{},\"per_intrinsic\":{{{}}}}}",
+        n,
+        distinct.len(),
+        samples.join(","),
+        quick,
+        pi.join(",")
+    );
+}
 
 fn repro() {
     unsafe {
@@ -44,16 +1365,43 @@ fn repro() {
         let y: [u128; 1] = vec128_storage::from(x.bswap()).into();
         println!("P14 ssse3 u128x1 bswap = {:032x} expected {:032x}", y[0], x0[0].swap_bytes());
         let _ = SSE41::instance();
+        let _ = AVX::instance();
     }
 }
 
 fn main() {
     let argv: Vec<String> = std::env::args().collect();
     if argv.len() < 2 {
-        eprintln!("usage: h_ppv <subcommand> [--key value]...");
+        eprintln!("usage: h_ppv c12|c13|intr|repro [--seed n --shards n --out dir --tier quick|thorough --machine all|SSE2|...]");
         std::process::exit(2);
     }
+    if !(is_x86_feature_detected!("avx2") && is_x86_feature_detected!("sse4.1") && is_x86_feature_detected!("ssse3")) {
+        eprintln!("h_ppv needs an AVX2 host to run all five back ends");
+        std::process::exit(3);
+    }
+    std::panic::set_hook(Box::new(|_| {}));
+    let a = Args::parse(&argv[2..]);
+    let seed = a.u64("seed", 1);
+    let shards = a.u64("shards", 16) as usize;
+    let out = a.str("out", "/verif/_build/work/ppv_manual");
+    let quick = a.str("tier", "quick") == "quick";
+    let which = a.str("machine", "all");
+    let mut g = Gen { rng: Rng::new(seed ^ 0x86), quick, nrand: a.u64("nrand", if quick { 3 } else { 24 }) as usize, light: false };
+    let mut cx = Cx::new();
     match argv[1].as_str() {
+        "c12" => {
+            each_machine(&mut cx, &mut g, &which, 12);
+            finish(cx, &out, shards, "c12", quick, &which);
+        }
+        "c13" => {
+            each_machine(&mut cx, &mut g, &which, 13);
+            finish(cx, &out, shards, "c13", quick, &which);
+        }
+        "intr" => {
+            let mut cases = Vec::new();
+            unsafe { intr_cases(&mut g, &mut cases) };
+            finish_intr(cases, &out, shards, quick);
+        }
         "repro" => repro(),
         other => {
             eprintln!("unknown subcommand {}", other);
